@@ -8,10 +8,28 @@ class C02(Prop):
     id = "C02"
     title = "Session lifecycle for N UEs: establish, service request, release, deregister"
     lean_module = "Stgutg.Props.C02"
+    extra_modules = ["Stgutg.Proofs.BuildersLife", "Stgutg.Props.C02Steps", "Stgutg.Props.C02Life", "Stgutg.Props.C02History",
+                     "Stgutg.Props.C02Script"]
     gen = ["schema", "registry", "templates", "nasie", "naslayout", "nassetters", "extract", "script", "tables"]
     theorems = ["Stgutg.Props.C02." + t for t in [
         "C02_generated_bounds", "genNumbers_eq", "C02_prerequisites", "C02_numbers_are_min", "C02_lifecycle", "C02_ids", "pduId_range", "C02_one_psi", "C02_reports", "C02_no_list_is_an_error", "C02_count_unique", "C02_protected_step_accepted", "cheapPrims_ok", "C02_accepted_witness",
-    ]] + ["Stgutg.Proofs.Emulator." + t for t in ["forUes_ok", "registerLoop_ok", "ueRun_counts", "estimate_next"]]
+        # judge steps of the nine uplink messages after registration (Props/C02Steps.lean)
+        "step_setupResponse", "step_releaseResponse", "step_ueContextReleaseComplete", "step_icsResponseSvc",
+        "step_initialUEMessage_protected", "Live.send", "setUe_setUe", "setUe_find", "onProtected_ulNasTransport",
+        "onProtected_serviceRequest", "onProtected_deregistrationRequest", "gsm_parse", "onSession_establishment",
+        "onSession_releaseRequest", "onSession_releaseComplete", "life_heads", "step_protected_uplink", "step_session_message",
+        "C02_step_establishment_request", "C02_step_release_request", "C02_step_release_complete",
+        "C02_step_deregistration_request", "C02_step_service_request", "C02_step_setup_response",
+        "C02_step_ics_response_service", "C02_step_release_response", "C02_step_ue_context_release_complete",
+        # whole procedures (Props/C02Life.lean), a UE's history (Props/C02History.lean), the whole script (Props/C02Script.lean)
+        "setUe_find_other", "C02_establish_block", "C02_service_block", "C02_deregister_block", "C02_release_block",
+        "proc_step", "stAfter_other", "C02_history_accepted", "registration_live", "C02_script_accepted",
+        "C02_calls_are_the_emulators",
+    ]] + ["Stgutg.Proofs.Emulator." + t for t in ["forUes_ok", "registerLoop_ok", "ueRun_counts", "estimate_next"]] \
+      + ["Stgutg.Proofs.BuildersLife." + t for t in [
+        "life_noExtra", "life_carriers", "inRange_setupResponse", "inRange_icsResponseSvc", "inRange_releaseResponse",
+        "inRange_ueContextReleaseComplete", "setupResponse_wire", "icsResponseSvc_wire", "releaseResponse_wire",
+        "ueContextReleaseComplete_wire"]]
     domains = [Domain("convo-life", 8, 40, tags="verif")]
     rule = ("convo-life: whole test-mode conversations (NG Setup, registration, PDU session establishment, service request, release, "
             "de-registration for 1..3 UEs, thorough ..6) against the scripted AMF of harness/peer over a SOCK_SEQPACKET socketpair: "
@@ -38,16 +56,29 @@ class C02(Prop):
                     "changes a UE's SUPI / RAN-UE-NGAP-ID / credentials / AMF-UE-NGAP-ID), distinct ids (C02_ids), COUNT uniqueness "
                     "below 2^24 with receiver recovery (C02_count_unique), the reference AMF's NAS-security clause accepts the next "
                     "message (C02_protected_step_accepted), reported = encoded values for spec-built setup requests (C02_reports). "
+                    "JUDGE LEVEL, for all arguments in range: each of the nine uplink messages after registration, as the "
+                    "emulator's constructor + EncodeNasPduWithSecurity + wrapper return it, raises no clause and moves the "
+                    "reference AMF's state as the procedure expects (C02_step_*: NGAP via C13's skeleton analysis, NAS security "
+                    "via C06, contents via C09); whole procedures (C02_establish/service/release/deregister_block); the fold over "
+                    "a UE's WHOLE HISTORY — any sequence of EstablishPDU / ServiceRequest / ReleasePDU whose prerequisites hold, "
+                    "COUNT strictly increasing up to 2^24 - 2, other UEs' records untouched (C02_history_accepted); and the whole "
+                    "script of one UE, NG Setup + registration + any history + de-registration, judged `accept` by the C02 judge "
+                    "with the configured numbers of procedures (C02_script_accepted). "
                     "one PDU session identity in 1..15 in NAS request, UL NAS TRANSPORT IE and NGAP response (C02_one_psi; false "
                     "before the F14 repair a0d23df). F14 (PSI = supi mod 10^4, uint8 for NAS only) and F19 (PTI 0 in PDU SESSION "
                     "RELEASE REQUEST / COMPLETE) were found by this check's reference AMF, repaired in /repo, and their replays run "
                     "first on every check (harness/corpus/convo-life). NOT proved: the end-to-end "
-                    "C02_accepted_statement (see C01). Traffic mode needs XDP: neither modelled nor run.")
+                    "C02_accepted_statement — what is missing between C02_script_accepted and it is the EMULATOR side of the "
+                    "procedures after registration: that EstablishPDU / ServiceRequest / ReleasePDU / DeregisterUE, reading the "
+                    "conformant AMF's downlink messages (setup request with NAS accept + transfer; the re-encoding of the "
+                    "protected plain messages by NASEncode), make exactly the calls `histUls` / `deregUls` describe (done for "
+                    "registration: C01_accepted_n), and the interleaving of N UEs' histories in test mode (the per-UE fold leaves "
+                    "the other records untouched: HistoryEnd.others). Traffic mode needs XDP: neither modelled nor run.")
     level_text = ("Lean theorems for all UE / repetition counts and configurations about an executable model of test mode and the "
                   "four procedures (arithmetic of the clamps, induction over the UE list, C06/C12/C13/C16 composed against the "
-                  "reference AMF); model tied to the code by whole-conversation differential runs incl. EstablishPDU's return "
+                  "reference AMF; the judge accepts the whole uplink script of a UE for every history: C02_script_accepted); model tied to the code by whole-conversation differential runs incl. EstablishPDU's return "
                   "values; the reference AMF/SMF judges every real transcript")
-    level_note = ("end-to-end acceptance is evaluated per transcript, not proved for all inputs; hand model tied differentially")
+    level_note = ("end-to-end acceptance: proved at judge level for the scripts of one UE (C02_script_accepted), evaluated per transcript for the emulator's reading of the downlink side after registration; hand model tied differentially")
     technique = "Lean 4 proof (arithmetic + induction + per-clause composition) + whole-conversation correspondence + executable reference AMF as oracle"
 
     def key(self, op, impl, model, spec):
